@@ -10,6 +10,9 @@ const (
 )
 
 var registry = []*HarnessSpec{
+	{Prop: "C16", Name: "S16", Structural: "S16", Tier: "quick", Bounds: "SSA of main.main: config.Parse called once with the result of time.Now() as epoch"},
+	{Prop: "C17", Name: "S17", Structural: "S17", Tier: "quick", Bounds: "SSA of main.main: the same parsed configuration reaches NewMetrics, crhttp.NewHandler and BuildTasks"},
+	{Prop: "C01", Name: "H01d", Structural: "H01d", Tier: "quick", Bounds: "call-graph scan: Interface.RouterAdvertisement is called only by buildRA, constScrape and the debug API"},
 	{Prop: "C12", Name: "zzH12handle", Pkg: pkgCorerad, Tier: "quick", Bounds: "Advertiser.handle on an RA that shares a prefix and a route with ours; our and their lifetimes, hop limit, forwarding symbolic"},
 	{Prop: "C04", Name: "zzH12handle", Pkg: pkgCorerad, Tier: "quick", Bounds: "consistency-check path: forwarding read once, our RA follows it"},
 	{Prop: "C10", Name: "zzH10mon", Pkg: pkgCorerad, Tier: "quick", NoNative: true, Bounds: "Monitor.Run with all its real goroutines, with or without an open link-state subscription; one invalid message, then an opaque receive error / a non-timeout net.Error / a link-state change"},
@@ -59,6 +62,7 @@ var registry = []*HarnessSpec{
 	{Prop: "C19", Name: "zzH19a", Pkg: pkgNetstate, Tier: "quick", Params: map[string]int{"subs": 2, "changes": 3, "subs@thorough": 3, "changes@thorough": 4}, Bounds: "2 (3) subscribers with any non-empty 7-bit mask on one of two interfaces; 3 (4) changes, each any non-zero 7-bit value, on either interface"},
 	{Prop: "C19", Name: "zzH19b", Pkg: pkgNetstate, Tier: "quick", Bounds: "10 matching undrained events"},
 	{Prop: "C19", Name: "zzH19c", Pkg: pkgNetstate, Tier: "quick", Params: map[string]int{"subs": 2, "subs@thorough": 3}, Bounds: "2 (3) subscribers, 0..2 notifications before watching ends"},
+	{Prop: "C19", Name: "zzH19d", Pkg: pkgNetstate, Tier: "quick", Explore: true, Sched: 64, Race: true, Bounds: "one early and one late subscriber; 2 notifications; the late Subscribe released at any of 4 points and scheduled at any later scheduling point (schedule budget 64); lock discipline on Watcher.m decided on every path; native validation under the Go race detector"},
 	{Prop: "C19", Name: "zzH19e", Pkg: pkgNetstate, Tier: "quick", Bounds: "every 8-bit operational state"},
 	{Prop: "C10", Name: "zzH10a", Pkg: pkgSystem, Tier: "quick", Unwind: 60, Bounds: "every input error class; DialFunc first succeeds at attempt 0..50 or never (loop unrolled to its 50 attempts)"},
 	{Prop: "C10", Name: "zzH10aCancel", Pkg: pkgSystem, Tier: "quick", Unwind: 60, Bounds: "cancellation during any of the first 4 waits, or none"},
